@@ -738,7 +738,8 @@ func (r *PipelineRunner) SaveToStore() {
 		WithField("component", "runner").
 		Debugf("Saving job state to data store")
 
-	r.mx.RLock()
+	// The write lock is needed, because jobs whose retention has expired are removed from the job maps below
+	r.mx.Lock()
 	data := &store.PersistedData{
 		Jobs: make([]store.PersistedJob, 0, len(r.jobsByID)),
 	}
@@ -811,7 +812,7 @@ func (r *PipelineRunner) SaveToStore() {
 			LastError: helper.ErrToStrPtr(job.LastError),
 		})
 	}
-	r.mx.RUnlock()
+	r.mx.Unlock()
 
 	// We do not need to lock here, the single save loops guarantees non-concurrent saves
 
